@@ -78,9 +78,10 @@ Proof.
   destruct (reference c) as [e|x] eqn:Eref.
   - cbn [outcome].
     assert (Hev : map (eval (c_var c) (table_truth (c_table c)) e) (seq 0 (c_envs c)) =
-                  map (fun i => VB (denote (table_truth (c_table c)) e i)) (seq 0 (c_envs c))).
-    { apply map_ext. intros i. apply eval_spec. intros a _. unfold atom_clean.
-      destruct Hc as [Hc|Hc]; [now left|right]. now apply table_clean_spec. }
+                  map (eval documented (table_truth (c_table c)) e) (seq 0 (c_envs c))).
+    { apply map_ext. intros i. apply eval_ext. intros a _. unfold atom_val.
+      destruct (tv_fault (table_truth (c_table c) a i)); [reflexivity|]. cbn [lookup_escapes documented andb].
+      destruct Hc as [-> | Hc]; [reflexivity|]. now rewrite (table_clean_spec _ Hc), andb_false_r. }
     rewrite Hev, vals_eqb_refl.
     destruct (c_expected c) as [e0|] eqn:Ee; [|reflexivity].
     specialize (He e0 eq_refl). injection He as <-. now rewrite expr_eqb_refl.
@@ -92,7 +93,7 @@ Proof.
 Qed.
 
 (* ---------- witnesses ---------- *)
-Definition tv_of (v s : bool) : tv := {| tv_val := v; tv_through_scalar := s |}.
+Definition tv_of (v s : bool) : tv := {| tv_val := v; tv_through_scalar := s; tv_fault := None |}.
 
 (* '@id_re@a{4294967296}' with re.compile raising OverflowError, behaviour before 86538e9 *)
 Definition atom_big : atom := {| a_key := None; a_type := TRe; a_cs := true; a_pat := lit "a{4294967296}" |}.
